@@ -39,7 +39,7 @@ example : bytesDecNext ⟨[8, 11, 0,0,0,1, 0,0,0,7, 0,0,0,1, 65] ++ [1, 2], 0⟩
 /-! ## the three stream skippers
 
   Reader hypotheses (all from C04, Lemmas/Reader*.lean, restated in Lemmas/SkipBRInst.lean):
-    `RdOK r`  = C04's invariant `Inv r` ∧ `ri + |remaining r| ≤ 2^60`            (sizes in range)
+    `RdOK r`  = C04's invariant `Inv r` ∧ `ri + |remaining r| ≤ 2^40`            (sizes in range)
     `r.Live`  = the source's stream is exhausted, or no error has been seen and the rest of the
                 script is `Steady` (error-free until the last byte is out — the last byte may
                 arrive together with an error such as io.EOF —, zero-byte reads in runs shorter
@@ -77,7 +77,7 @@ theorem skipBR_exact_stream (r : Rd) (v rest : Bytes) (t : UInt8) (hok : RdOK r)
   obtain ⟨r', hx, hrem', hlen, hok', hl'⟩ := h2
   exact ⟨r', hx, by simpa using hrem', hlen, hok', hl'⟩
 
-/-- … in particular for a fresh `NewDefaultReader(src)` over every stream `v ++ rest` (≤ 2^60 bytes)
+/-- … in particular for a fresh `NewDefaultReader(src)` over every stream `v ++ rest` (≤ 2^40 bytes)
     and every `Steady` script -/
 theorem skipBR_exact_fresh (v rest : Bytes) (script : List Resp) (t : UInt8)
     (hsz : (v ++ rest).length ≤ sizeBound)
